@@ -14,6 +14,9 @@ def history(rng, dbdir, imgdir, nops, variants, follow, max_points):
     opts = crash_opts(rng)
     h = Hist(rng, dbdir, opts, rng.choice([5, 14]))
     h.emit('journal on')
+    if rng.chance(1, 2):
+        # background flushes / compactions overlap the following calls (log switches while a compaction is in flight)
+        h.emit('nowait 1')
     h.open()
     for _ in range(nops):
         k = rng.below(20)
@@ -40,7 +43,7 @@ def history(rng, dbdir, imgdir, nops, variants, follow, max_points):
     # number of journal events is unknown here; the harness takes a stride, so estimate ~9 events per op
     est = max(1, nops * 9)
     stride = max(1, est // max_points)
-    h.emit('crashscan %d %s %s%s' % (stride, variants, imgdir, ' follow' if follow else ''))
+    h.emit('crashscan %d %s %s%s' % (stride, variants, imgdir, (' nested' if follow == 'nested' else ' follow') if follow else ''))
     return 'crash', opts, h.lines
 
 
